@@ -206,3 +206,67 @@ Theorem C16_hist_handle_function_fixed :
     bfun_of (h_s C st') (eref e) a = bfun_of (h_s C st) (eref e) a'.
 Proof. exact hist_handle_function_fixed. Qed.
 Print Assumptions C16_hist_handle_function_fixed.
+
+(** ** ALL histories, complement-edge kind (HISTc): [add_vars] inside the BCDD manager state
+    machine of Mgr/HistoryC.v (node table + handles + apply cache + substitution objects) *)
+From OxiVerif Require Import DD.ApplyBcdd DD.ApplyBcddProofs DD.ApplyBcddEval
+  Mgr.HistoryC Mgr.HistoryCProofs Mgr.HistoryCThms Mgr.HistoryCExamples.
+
+(* in any state the invariant holds in (so: after any history) adding [k] variables touches no node
+   and no slot, the new variables sit below all others, every stored function is still stored,
+   and it is the old function, which ignores the new variables *)
+Theorem C16_histc_add_vars_keeps_functions :
+  forall (lt : edge -> edge -> bool) (C : Type) (cget : C -> N -> list edge -> option edge)
+         (cadd : C -> N -> list edge -> edge -> C) (cempty : C)
+         (st : hstate_c C) (k : nat) (st' : hstate_c C),
+  HInvC C cget st -> hstep_c lt C cget cadd cempty st (HAddVars k) = Some st' ->
+  Table.nlevels (hc_s C st') = Table.nlevels (hc_s C st) + k /\
+  s_nodes (hc_s C st') = s_nodes (hc_s C st) /\
+  s_handles (hc_s C st') = s_handles (hc_s C st) /\
+  (forall v, v < Table.nlevels (hc_s C st) ->
+     nth_error (s_v2l (hc_s C st')) v = nth_error (s_v2l (hc_s C st)) v) /\
+  (forall i, i < k ->
+     nth_error (s_v2l (hc_s C st')) (Table.nlevels (hc_s C st) + i) = Some (Table.nlevels (hc_s C st) + i)) /\
+  forall e, ref_ok (hc_s C st) (eref e) ->
+    ref_ok (hc_s C st') (eref e) /\
+    forall a a', (forall v, v < Table.nlevels (hc_s C st) -> a v = a' v) ->
+      cbfun_of (hc_s C st') e a = cbfun_of (hc_s C st) e a'.
+Proof. exact histc_add_vars. Qed.
+Print Assumptions C16_histc_add_vars_keeps_functions.
+
+(* ... and the invariant (well-formed table, valid cache - which [add_vars] does NOT clear -,
+   consistent substitution objects) holds again, every slot keeps edge and function *)
+Theorem C16_histc_add_vars_step :
+  forall (lt : edge -> edge -> bool) (C : Type) (cget : C -> N -> list edge -> option edge)
+         (cadd : C -> N -> list edge -> edge -> C), lossyC cget cadd ->
+  forall cempty : C, (forall k a, cget cempty k a = None) ->
+  forall (st : hstate_c C) (k : nat), HInvC C cget st ->
+  exists st', hstep_c lt C cget cadd cempty st (HAddVars k) = Some st' /\
+              HInvC C cget st' /\ hframe_c C st (HAddVars k) st' /\ hpost_c C st (HAddVars k) st'.
+Proof. exact (fun lt C cget cadd L cempty He st k I => hstep_c_ok lt C cget cadd L cempty He st (HAddVars k) I Logic.I). Qed.
+Print Assumptions C16_histc_add_vars_step.
+
+(* non-vacuity: in [exc_ops] (Mgr/HistoryCExamples.v) a variable is added after 19 calls (with a
+   non-empty cache and a live substitution object) and used afterwards *)
+Theorem C16_histc_example :
+  hrun_c ltA eacache eac_get eac_add nil (hinit_c eacache nil 3) exc_ops = Some exc_stA /\
+  s_l2v (hc_s eacache exc_stA) = (2 :: 0 :: 1 :: 3 :: nil) /\ wf_b (hc_s eacache exc_stA) = true.
+Proof. exact (conj exc_runA (conj (proj1 (proj2 exc_stA_shape)) (proj1 exc_wfA))). Qed.
+Print Assumptions C16_histc_example.
+
+(* along a whole history: however many variables are added meanwhile (and whatever else is
+   called), an existing handle that is not overwritten denotes the function it denoted, and that
+   function reads only the variables that existed at the time *)
+Theorem C16_histc_handle_function_fixed :
+  forall (lt : edge -> edge -> bool) (C : Type) (cget : C -> N -> list edge -> option edge)
+         (cadd : C -> N -> list edge -> edge -> C), lossyC cget cadd ->
+  forall cempty : C, (forall k a, cget cempty k a = None) ->
+  forall ops (st st' : hstate_c C), HInvC C cget st -> hops_pre_c lt C cget cadd cempty st ops ->
+  hrun_c lt C cget cadd cempty st ops = Some st' ->
+  forall x e, (forall o, List.In o ops -> hdst o <> Some x) ->
+  ConfigApply.hget (s_handles (hc_s C st)) x = Some e ->
+  ConfigApply.hget (s_handles (hc_s C st')) x = Some e /\
+  forall a a', (forall v, v < Table.nlevels (hc_s C st) -> a v = a' v) ->
+    cbfun_of (hc_s C st') e a = cbfun_of (hc_s C st) e a'.
+Proof. exact histc_handle_function_fixed. Qed.
+Print Assumptions C16_histc_handle_function_fixed.
